@@ -81,7 +81,7 @@ def record_and_validate(ctx, n):
             raise MachineryError("trace line %d (run %d step %d) did not reproduce in a fresh process" % (lineno, rec["run"], rec["step"]))
         x = same[0]
         kind = "keyids-error" if any(str(k).startswith("error:") for v in x["kids"].values() for k in v) else "answers"
-        key = "C02/%strace/%s/after=%s" % ("lookalike-member/" if x.get("look") else "", kind, x["op"])
+        key = ("C02/lookalike-member/trace/%s" % kind) if x.get("look") else ("C02/trace/%s/after=%s" % (kind, x["op"]))
         if key in rejected:
             rejected[key] += 1
             return
@@ -97,6 +97,7 @@ def record_and_validate(ctx, n):
 def replay(ctx, rp):
     """bin/check C02 --replay <file>: re-execute one stored disagreement against the current tree."""
     pl = rp["payload"]
+    ctx.seed = rp.get("seed", ctx.seed)      # concrete names / values / keys are a function of (seed, record)
     print("key    :", rp.get("key"))
     print("stored :", json.dumps(pl.get("result"))[:3000])
     if pl.get("harness") == "c02rec":
